@@ -536,6 +536,8 @@ class SigmaCorrelationRule(SigmaRuleBase, ProcessingItemTrackingMixin):
         correlation_type = correlation_rule.get("type")
         if correlation_type is not None:
             try:
+                if not isinstance(correlation_type, str):
+                    raise KeyError(correlation_type)
                 correlation_type = SigmaCorrelationType[correlation_type.upper()]
             except KeyError:
                 errors.append(
